@@ -20,6 +20,7 @@ RULE = ("one case per (table set, mother); non-trivial = more than one decay pat
 ANCHORS = ["decaylanguage.dec.dec:DecFileParser.expand_decay_modes", "decaylanguage.decay.decay:_expand_decay_modes",
            "decaylanguage.utils.utilities:DescriptorFormat.format_descriptor"]
 WORKERS = {"quick": 4, "thorough": 16}
+WTESTS = {"groups": ['parser_chains'], "tests": ['tests/dec', 'tests/decay']}
 REQUIRED = {"product>=2x2-in-one-line": 30, "line-with>=3-multi-mode-daughters": 10, "line-without-daughters": 20, "decaying-alias-at-depth>=2": 10,
             "decaying-alias-top": 10, "non-decaying-alias": 20, "empty-block-daughter": 20, "same-decaying-daughter-twice": 20, "paths>=50": 20,
             "corpus-mother": 20, "C10.expand.count_and_paths": 100}
